@@ -51,7 +51,7 @@ RegDen(n, r) ==
   IF IsC(n) THEN [ok |-> TRUE, wells |-> <<1>>, shape |-> <<>>]
   ELSE LET nr == Shape[n][1]
            nc == Shape[n][2]
-           d  == SL!Denote(Regions[r], SL!DefaultRows(nr), SL!DefaultCols(nc))
+           d  == SL!DenoteAny(Regions[r], SL!DefaultRows(nr), SL!DefaultCols(nc))
        IN  IF d.ok
            THEN [ok |-> TRUE, wells |-> [j \in DOMAIN d.wells |-> SL!Lin(d.wells[j], nc)], shape |-> d.shape]
            ELSE [ok |-> FALSE, wells |-> <<>>, shape |-> <<>>]
